@@ -28,7 +28,7 @@ _CREATABLE = {"idx", "barekey", "idx_key", "idx_idx", "key_p", "key_p_p", "key_m
 
 
 def eval_total(shape: str, template: str, i: int, j: int, a: int, b: int, c: int, mode: int, slash: bool,
-               rl: bool = False) -> bool:
+               rl: bool = False, twice: bool = False) -> bool:
     """The query returns or raises a member of the YAMLPathException family."""
     if rl:
         # member containers get stringified by the implementation: enumerate the (small) leaf domain
@@ -40,18 +40,22 @@ def eval_total(shape: str, template: str, i: int, j: int, a: int, b: int, c: int
     path = qcommon.path_for(shape, template, i, j, slash)
     note(document=docs.describe(shape), leaves=[a, b, c], path=path,
          call=["get_nodes(mustexist=True)", "exists()", "get_nodes(mustexist=False)"][mode])
-    proc = Processor(LOG, doc)
-    try:
-        if mode == 0:
-            for _ in proc.get_nodes(path, mustexist=True):
-                pass
-        elif mode == 1:
-            proc.exists(path)
-        else:
-            for _ in proc.get_nodes(path, mustexist=False, default_value=0):
-                pass
-    except YAMLPathException:
-        return True
+    for rep in range(2 if twice else 1):
+        # second round: a fresh Processor over a fresh document - state must not be carried over in the library
+        if rep == 1:
+            doc = docs.build(shape, a, b, c)
+        proc = Processor(LOG, doc)
+        try:
+            if mode == 0:
+                for _ in proc.get_nodes(path, mustexist=True):
+                    pass
+            elif mode == 1:
+                proc.exists(path)
+            else:
+                for _ in proc.get_nodes(path, mustexist=False, default_value=0):
+                    pass
+        except YAMLPathException:
+            pass
     return True
 
 
@@ -104,9 +108,10 @@ def _mk(shape, template, tier="thorough"):
     params += [("a", "int"), ("b", "int"), ("c", "int")]
     if not fixed:
         params += [("mode", "int"), ("slash", "bool")]
-    call = "eval_total(%r, %r, %s, %s, a, b, c, %s, %s, %r)" % (
+    twice = template in ("s_badre", "a_badre", "s_re", "kw_uniquep", "kw_distinctp", "kw_maxp", "kw_haschild", "s_eq_x")
+    call = "eval_total(%r, %r, %s, %s, a, b, c, %s, %s, %r, %r)" % (
         shape, template, "i" if uses_i else "0", "j" if uses_j else "0",
-        "0" if fixed else "mode", "False" if fixed else "slash", rl)
+        "0" if fixed else "mode", "False" if fixed else "slash", rl, twice)
     out = []
     for suffix, ipre in variants:
         pre = list(ipre) + [leaf_pre] + ([] if fixed else ["0 <= mode <= %d" % modes])
